@@ -300,6 +300,12 @@ def cli_partition(rec, rnd, tmp, k):
     for i in range(rnd.randint(3, 14)):
         rows.append('%04d-%02d-%02d,%s %d,%.2f' % (rnd.choice([2024, 2025]), rnd.randint(1, 12), rnd.randint(1, 28), rnd.choice(words), i % 3,
                                                  rnd.choice([1, 1, 1, -1]) * rnd.choice([5, 12.5, 99.99, 1234.56, 0.01, 250])))
+    if rnd.random() < .5:
+        # the same purchase made twice on one day (two coffees, two fares): identical lines are two transactions wherever the split puts them
+        for r in rnd.sample(rows, min(len(rows), rnd.randint(1, 3))):
+            rows += [r] * rnd.randint(1, 2)
+        rnd.shuffle(rows)
+        rec.count('cli_partitions_with_identical_rows')
     if rnd.random() < .4:
         a = rnd.choice([500.0, 120.5])
         rows += ['2025-03-01,CHASE AUTOPAY,%.2f' % a, '2025-03-02,CHASE AUTOPAY,%.2f' % -a, '2025-03-03,CHASE ANNUAL FEE,95.00']
